@@ -572,7 +572,15 @@ def _in_parless_environment(doc, offset):
     p = found[0].parentNode
     if not isinstance(p, plasTeX.Environment):
         return False
-    return not any(getattr(c, 'level', None) == Node.PAR_LEVEL for c in p.childNodes)
+    if any(getattr(c, 'level', None) == Node.PAR_LEVEL for c in p.childNodes):
+        return False
+    # ... and only when no paragraph encloses the environment either (a paragraph normalizes the blocks it holds)
+    a, hops = p.parentNode, 0
+    while a is not None and hops < 100:
+        if getattr(a, 'level', None) == Node.PAR_LEVEL:
+            return False
+        a, hops = a.parentNode, hops + 1
+    return True
 
 
 def cases_for(block):
